@@ -32,7 +32,7 @@ fn hash_from(b: [u8; 32]) -> BlockHash {
     h.into()
 }
 
-fn sign_vote(v: usize, kind: VK, slot: u64, hash: &BlockHash) -> Vote {
+pub fn sign_vote(v: usize, kind: VK, slot: u64, hash: &BlockHash) -> Vote {
     let kp = keys::keypair(v);
     let me = ValidatorIndex::new(v as u64);
     let s = Slot::new(slot);
